@@ -596,6 +596,7 @@ class BytecodeCompiler(Visitor):
         # reserve the program's own names: a bare `fresh('__fpy_cmp')` would
         # otherwise return that very name and shadow a source variable
         self.gensym = Gensym(reserved=DefineUse.analyze(func).names())
+        self._comp_iterable = 0   # depth of comprehension iterables being compiled
         self.foreign_vals = {}
 
     def compile(self):
@@ -866,9 +867,29 @@ class BytecodeCompiler(Visitor):
     def _visit_compare(self, e: Compare, ctx: None):
         attrs = self._location_to_attributes(e.loc)
         args = [self._visit_expr(arg, ctx) for arg in e.args]
-        # Equality is structural (see `_eval_eq`), which no `==` node expresses,
-        # so the chain becomes a conjunction of pairwise tests.  A walrus binds
-        # each middle operand so it is evaluated once, as Python's chain does.
+
+        def pair(op: CompareOp, lhs: pyast.expr, rhs: pyast.expr) -> pyast.expr:
+            # Equality is structural (see `_eval_eq`), which no `==` node expresses
+            if op is CompareOp.EQ or op is CompareOp.NE:
+                call = pyast.Call(
+                    func=pyast.Name(id='__fpy_eq', ctx=pyast.Load(), **attrs),
+                    args=[lhs, rhs], keywords=[], **attrs,
+                )
+                return call if op is CompareOp.EQ else pyast.UnaryOp(
+                    op=pyast.Not(), operand=call, **attrs,
+                )
+            return pyast.Compare(
+                self._ordered_guard(lhs, op, attrs),
+                [self._visit_compare_op(op)],
+                [self._ordered_guard(rhs, op, attrs)], **attrs,
+            )
+
+        # The chain becomes a conjunction of pairwise tests, each middle operand
+        # evaluated once, as Python's chain does: a walrus binds it -- except in
+        # the iterable of a comprehension, where Python forbids one.
+        if self._comp_iterable > 0 and len(args) > 2:
+            return self._compare_chain_nested(e, args, pair, attrs)
+
         reuse: list[pyast.expr] = []
         for i in range(1, len(args) - 1):
             tmp = str(self.gensym.fresh('__fpy_cmp'))
@@ -882,27 +903,40 @@ class BytecodeCompiler(Visitor):
         for i, op in enumerate(e.ops):
             # every operand but the first is written by the pair before it
             lhs = args[0] if i == 0 else reuse[i - 1]
-            rhs = args[i + 1]
-            clause: pyast.expr
-            if op is CompareOp.EQ or op is CompareOp.NE:
-                call = pyast.Call(
-                    func=pyast.Name(id='__fpy_eq', ctx=pyast.Load(), **attrs),
-                    args=[lhs, rhs], keywords=[], **attrs,
-                )
-                clause = call if op is CompareOp.EQ else pyast.UnaryOp(
-                    op=pyast.Not(), operand=call, **attrs,
-                )
-            else:
-                clause = pyast.Compare(
-                    self._ordered_guard(lhs, op, attrs),
-                    [self._visit_compare_op(op)],
-                    [self._ordered_guard(rhs, op, attrs)], **attrs,
-                )
-            clauses.append(clause)
+            clauses.append(pair(op, lhs, args[i + 1]))
 
         if len(clauses) == 1:
             return clauses[0]
         return pyast.BoolOp(op=pyast.And(), values=clauses, **attrs)
+
+    def _compare_chain_nested(self, e: Compare, args: list[pyast.expr], pair, attrs) -> pyast.expr:
+        """`a < m < c` as `(lambda t0: (lambda t1: t0 < t1 and t1 < c)(m))(a)`:
+        every operand evaluated once, left to right, a later one only if the
+        pairs before it held -- without an assignment expression."""
+        names = [str(self.gensym.fresh('__fpy_cmp')) for _ in args]
+
+        def load(i: int) -> pyast.expr:
+            return pyast.Name(id=names[i], ctx=pyast.Load(), **attrs)
+
+        def bind(i: int, body: pyast.expr) -> pyast.expr:
+            params = pyast.arguments(
+                posonlyargs=[], args=[pyast.arg(arg=names[i], annotation=None, **attrs)],
+                vararg=None, kwonlyargs=[], kw_defaults=[], kwarg=None, defaults=[],
+            )
+            fn = pyast.Lambda(args=params, body=body, **attrs)
+            return pyast.Call(func=fn, args=[args[i]], keywords=[], **attrs)
+
+        def rest(i: int) -> pyast.expr:
+            # the pairs from `i` on, with operand `i` already bound
+            if i == len(e.ops) - 1:
+                return pair(e.ops[i], load(i), args[i + 1])
+            both = pyast.BoolOp(
+                op=pyast.And(),
+                values=[pair(e.ops[i], load(i), load(i + 1)), rest(i + 1)], **attrs,
+            )
+            return bind(i + 1, both)
+
+        return bind(0, rest(0))
 
     def _visit_tuple_expr(self, e: TupleExpr, ctx: None):
         args = [self._visit_expr(elt, ctx) for elt in e.elts]
@@ -934,7 +968,11 @@ class BytecodeCompiler(Visitor):
 
     def _visit_list_comp(self, e: ListComp, ctx: None):
         targets = [self._visit_target(target) for target in e.targets]
-        iterables = [self._visit_expr(iterable, ctx) for iterable in e.iterables]
+        self._comp_iterable += 1
+        try:
+            iterables = [self._visit_expr(iterable, ctx) for iterable in e.iterables]
+        finally:
+            self._comp_iterable -= 1
 
         # create comprehension generators
         generators = [
